@@ -271,7 +271,12 @@ class Sandbox:
                     if not context.finished:
                         context.abandoned = True
                 # False: the code ended (and was recorded) just as the time ran out
-                return not contexts or any(context.abandoned for context in contexts)
+                timed_out = not contexts or any(context.abandoned for context in contexts)
+            if timed_out:
+                # Done before the thread is interrupted, so that the interrupt
+                # cannot land while the thread is starting to trace
+                self.trace.abandon()
+            return timed_out
 
         try:
             return timeout(self.allowed_time, self._execute,
